@@ -8,6 +8,7 @@ from ast import literal_eval
 from concurrent.futures import wait
 import logging
 from packaging import version
+import sys
 import time
 import typing
 import warnings
@@ -737,6 +738,9 @@ class Saver:
         self.md["writing_started"] = time.time()
         self.md["chunks"] = []
         self.timeout = saver_timeout
+        # An exception that is already being handled when the saver is made
+        # (e.g. copying data inside an except block) has nothing to do with this save
+        self._outside_exception = sys.exc_info()[1]
 
     def save_from(self, source: typing.Generator, rechunk=True, executor=None):
         """Iterate over source and save the results under key along with metadata."""
@@ -841,7 +845,7 @@ class Saver:
         self.closed = True
 
         exc_info = strax.formatted_exception()
-        if exc_info:
+        if exc_info and sys.exc_info()[1] is not self._outside_exception:
             self.md["exception"] = exc_info
         elif self.got_exception is not None:
             self.md["exception"] = repr(self.got_exception)
